@@ -1,9 +1,225 @@
+import RsslVerif.Model.Targets
 import RsslVerif.Driver.Util
-/-! Line-protocol front end of the C18 model (stub until the model is built). -/
+/-! Line-protocol front end of the C18 models (define list, compact macro model, reflected bindings, stage reports). -/
 namespace RsslVerif.Driver.C18
+open RsslVerif.Gen.SlotTables RsslVerif.Gen.CompileTables RsslVerif.Gen.TargetTables
+open RsslVerif.Model.MacroLite RsslVerif.Model.Targets RsslVerif.Driver
+
+def parseTarget (s : String) : Option (Target × Bool) :=
+  if s == "dx" then some (.HlslForDirectX, false)
+  else if s == "vk" then some (.HlslForVulkan, false)
+  else if s == "vkba" then some (.HlslForVulkan, true)
+  else if s == "msl" then some (.Msl, false)
+  else none
+
+def targetNames : List String := ["dx", "vk", "vkba", "msl"]
+
+/-! ### tokens and the condition evaluator of the driver (mirrors condition_parser.rs on the generated subset) -/
+
+def isIdStart (c : Char) : Bool := c.isAlpha || c == '_'
+
+def parseTok (w : String) : Tok :=
+  match w.toNat? with
+  | some n => .lit n
+  | none => if (w.toList.head?.map isIdStart).getD false then .id w else .punct w
+
+def parseToks (s : String) : List Tok :=
+  ((s.splitOn " ").filter (· != "")).map parseTok
+
+def showTok : Tok → String
+  | .id s => s
+  | .lit n => toString n
+  | .punct s => s
+
+inductive BinOp where | or | and | eq | ne | lt | le | gt | ge
+
+def BinOp.apply : BinOp → Nat → Nat → Nat
+  | .or, a, b => if a != 0 || b != 0 then 1 else 0
+  | .and, a, b => if a != 0 && b != 0 then 1 else 0
+  | .eq, a, b => if a == b then 1 else 0
+  | .ne, a, b => if a != b then 1 else 0
+  | .lt, a, b => if a < b then 1 else 0
+  | .le, a, b => if a ≤ b then 1 else 0
+  | .gt, a, b => if a > b then 1 else 0
+  | .ge, a, b => if a ≥ b then 1 else 0
+
+/-- operator of a precedence level at the head of the stream (levels: 0 `||`, 1 `&&`, 2 `== !=`, 3 `< <= > >=`) -/
+def opAt (lvl : Nat) : List Tok → Option (BinOp × List Tok)
+  | .punct "||" :: r => if lvl == 0 then some (.or, r) else none
+  | .punct "&&" :: r => if lvl == 1 then some (.and, r) else none
+  | .punct "==" :: r => if lvl == 2 then some (.eq, r) else none
+  | .punct "!=" :: r => if lvl == 2 then some (.ne, r) else none
+  | .punct "<=" :: r => if lvl == 3 then some (.le, r) else none
+  | .punct ">=" :: r => if lvl == 3 then some (.ge, r) else none
+  | .punct "<" :: r => if lvl == 3 then some (.lt, r) else none
+  | .punct ">" :: r => if lvl == 3 then some (.gt, r) else none
+  | _ => none
+
+mutual
+def parseLvl : Nat → Nat → List Tok → Option (Nat × List Tok)
+  | 0, _, _ => none
+  | f + 1, lvl, ts =>
+    if lvl < 4 then
+      match parseLvl f (lvl + 1) ts with
+      | none => none
+      | some (v, rest) => binLoop f lvl v rest
+    else if lvl == 4 then
+      match ts with
+      | .punct "!" :: rest => (parseLvl f 4 rest).map fun (v, r) => ((if v == 0 then 1 else 0), r)
+      | _ => parseLvl f 5 ts
+    else
+      match ts with
+      | .lit n :: rest => some (n, rest)
+      | .id _ :: rest => some (0, rest)
+      | .punct "(" :: rest =>
+        match parseLvl f 0 rest with
+        | some (v, .punct ")" :: r) => some (v, r)
+        | _ => none
+      | _ => none
+def binLoop : Nat → Nat → Nat → List Tok → Option (Nat × List Tok)
+  | 0, _, _, _ => none
+  | f + 1, lvl, left, ts =>
+    match opAt lvl ts with
+    | none => some (left, ts)
+    | some (op, rest) =>
+      match parseLvl f (lvl + 1) rest with
+      | none => none
+      | some (r, rest') => binLoop f lvl (op.apply left r) rest'
+end
+
+def evalCond (ts : List Tok) : Option Bool :=
+  match parseLvl (8 * (ts.length + 2)) 0 ts with
+  | some (v, []) => some (v != 0)
+  | _ => none
+
+/-! ### C18.pp -/
+
+def parseUser (s : String) : Table :=
+  ((s.splitOn ",").filter (· != "")).filterMap fun d =>
+    match d.splitOn "=" with
+    | [n, v] => some ⟨n, parseToks v⟩
+    | _ => none
+
+def parseLine (l : String) : Option Line :=
+  match (l.splitOn " ").filter (· != "") with
+  | "T" :: r => some (.text (r.map parseTok))
+  | "D" :: n :: r => some (.define n (r.map parseTok))
+  | ["U", n] => some (.undef n)
+  | ["IFDEF", n] => some (.ifdef false n)
+  | ["IFNDEF", n] => some (.ifdef true n)
+  | "IF" :: r => some (.if_ (r.map parseTok))
+  | "ELIF" :: r => some (.elif (r.map parseTok))
+  | ["ELSE"] => some .else_
+  | ["ENDIF"] => some .endif
+  | _ => none
+
+def showErr : PErr → String
+  | .elseNotMatched => "ElseNotMatched"
+  | .endifNotMatched => "EndIfNotMatched"
+  | .notFinished => "ConditionChainNotFinished"
+  | .badCondition => "BadCondition"
+
+def hasDup : List String → Bool
+  | [] => false
+  | a :: r => r.contains a || hasDup r
+
+def handlePp (tgt user program : String) : String :=
+  match parseTarget tgt, sequenceOpt ((program.splitOn " ;; ").map parseLine) with
+  | some (t, _), some lines =>
+    let ms := initialTable t (parseUser user)
+    if hasDup (ms.map (·.name)) || ms.any (·.name == "defined") then "unsupported-duplicate-define" else
+    match run evalCond ms lines with
+    | .ok ts => "ok:" ++ " ".intercalate (ts.map showTok)
+    | .error e => "err:" ++ showErr e
+  | _, _ => "bad-request"
+
+/-! ### C18.cross -/
+
+def parseArr (s : String) : Option Arr :=
+  if s == "-" then some .single else if s == "*" then some .unsized else s.toNat?.map .sized
+
+def parseDecl (s : String) : Option Decl :=
+  match s.splitOn ":" with
+  | [n, k, len, ss] =>
+    match parseArr len with
+    | none => none
+    | some arr =>
+      if k == "cbuffer" then some ⟨n, .cbuffer⟩
+      else (ObjKind.ofName? k).map fun ok => ⟨n, .object ok arr (ss == "1")⟩
+  | _ => none
+
+def parseDecls (s : String) : Option (List Decl) :=
+  if s.isEmpty then some [] else sequenceOpt ((s.splitOn ";").map parseDecl)
+
+def parseStageName (s : String) : Option Stage :=
+  [Stage.Vertex, .Task, .Mesh, .Pixel, .Compute].find? (fun st => st.name == s)
+
+def parseThreads (s : String) : Option (Nat × Nat × Nat) :=
+  match (s.splitOn "x").map String.toNat? with
+  | [some a, some b, some c] => some (a, b, c)
+  | _ => none
+
+def parseStageDef (s : String) : Option StageDef :=
+  match s.splitOn "=" with
+  | [st, rest] =>
+    match parseStageName st, rest.splitOn "@" with
+    | some stage, [f] => some ⟨stage, f, none⟩
+    | some stage, [f, th] => (parseThreads th).map fun t => ⟨stage, f, some t⟩
+    | _, _ => none
+  | _ => none
+
+def parsePipe (s : String) : Option (String × List StageDef) :=
+  match s.splitOn ":" with
+  | [n, st] => (sequenceOpt ((st.splitOn ",").map parseStageDef)).map (n, ·)
+  | _ => none
+
+def parsePipes (s : String) : Option (List (String × List StageDef)) :=
+  if s.isEmpty then some [] else sequenceOpt ((s.splitOn ";").map parsePipe)
+
+def showThreads : Option (Nat × Nat × Nat) → String
+  | none => "-"
+  | some (a, b, c) => s!"{a},{b},{c}"
+
+def showBinding (b : Binding) : String :=
+  b.name ++ ":" ++ b.kind.name ++ ":" ++ (match b.count with | some n => toString n | none => "*") ++
+    (if b.ss then ":ss" else "")
+
+def sortStrings (l : List String) : List String := (l.toArray.qsort (· < ·)).toList
+
+def showTarget (name : String) (t : Target) (sba : Bool) (verdict : String) (ds : List Decl)
+    (pipes : List (String × List StageDef)) : String :=
+  if verdict != "ok" then name ++ "{" ++ verdict ++ "}" else
+  let ps := pipes.map fun (n, st) =>
+    n ++ "[" ++ ",".intercalate ((stageReports t st).map fun s =>
+      s.stage.name ++ ":" ++ s.entry ++ ":" ++ showThreads s.threads) ++ "]"
+  match bindingsFor hlslRename t sba ds with
+  | .error _ => name ++ "{model:unsupported-object-kind}"
+  | .ok bs => name ++ "{" ++ ";".intercalate ps ++ "|" ++ ",".intercalate (sortStrings (bs.map showBinding)) ++ "}"
+
+def parseVerdicts (s : String) : List (String × String) :=
+  (s.splitOn ",").filterMap fun x =>
+    match x.splitOn "=" with
+    | [a, b] => some (a, b)
+    | _ => none
+
+def handleCross (decls pipes verdicts : String) : String :=
+  match parseDecls decls, parsePipes pipes with
+  | some ds, some ps =>
+    let vs := parseVerdicts verdicts
+    " ".intercalate (targetNames.map fun n =>
+      match parseTarget n with
+      | some (t, sba) => showTarget n t sba ((vs.lookup n).getD "?") ds ps
+      | none => "?")
+  | _, _ => "bad-request"
 
 def handle (op : String) (args : List String) : String :=
-  let _ := (op, args)
-  "unsupported-op"
+  match op, args with
+  | "C18.defines", [tgt] =>
+    match parseTarget tgt with
+    | some (t, _) => ";".intercalate ((targetDefines t).map fun d => d.1 ++ "=" ++ d.2)
+    | none => "bad-request"
+  | "C18.cross", [_seed, _variant, decls, pipes, verdicts] => handleCross decls pipes verdicts
+  | "C18.pp", [tgt, user, program] => handlePp tgt user program
+  | _, _ => "unsupported-op"
 
 end RsslVerif.Driver.C18
